@@ -515,6 +515,9 @@ def gen_regdyn():
                     obligations.append(dict(n=len(obligations), arch="riscv", cls=cls, off=c[1], header=f"; .arch {isa} ; .feature {f.extra[1][0]} ;",
                                             line=f.render(base, runtime={cur: f"{f.kind_of(cur)}(v)"}), ty="u8", mnemonic=f.mnemonic, cmd=n,
                                             compressed=op["template"][0] == "Compressed"))
+                    # the same class on the E profile (x16..x31 do not exist): the run-time test must use the 16 register file
+                    if f.kind_of(cur) == "X" and all(not (isinstance(v, int) and v >= 16) for v in base.values()):
+                        obligations.append(dict(obligations[-1], n=len(obligations), header=f"; .arch {isa}e ; .feature {f.extra[1][0]} ;", embedded=True, cmd=n + " (E profile)"))
             cur += 1
     _, out = common.sh([common.PLUG, "exec"], inp="\n".join("cl " + ob["header"] + " " + ob["line"] for ob in obligations) + "\n", timeout=600)
     for ob, (_, a) in zip(obligations, common.answers_of_impl(out)):
@@ -553,11 +556,12 @@ def gen_regdyn():
                 if ob["w"] == 16:
                     rhs = f"({rhs}.truncate 16)"
                 fh.write(f"theorem ob{n}_dyn_eq_static_{tag} (v : BitVec {w}) (hn : v.ult 32 = true) :\n"
-                         f"    ob{n}_panic_{tag} v = !(Cls.ok {ob['cls']} false {ext}) ∧ (ob{n}_panic_{tag} v = false → ob{n}_word_{tag} v = {rhs}) := by\n"
+                         f"    ob{n}_panic_{tag} v = !(Cls.ok {ob['cls']} {'true' if ob.get('embedded') else 'false'} {ext}) ∧ (ob{n}_panic_{tag} v = false → ob{n}_word_{tag} v = {rhs}) := by\n"
                          f"  simp only [ob{n}_panic_{tag}, ob{n}_word_{tag}, Cls.ok, Cls.code, place] at *\n  bv_decide (config := {{ timeout := 120 }})\n")
                 thms.append(f"ob{n}_dyn_eq_static_{tag}")
             # C04: the class accepts exactly its registers and encodes them injectively
-            fh.write(f"theorem ob{n}_injective (a b : BitVec 32) (ha : a.ult 32 = true) (hb : b.ult 32 = true) (oa : Cls.ok {ob['cls']} false a = true) (ob : Cls.ok {ob['cls']} false b = true)\n"
+            emb = 'true' if ob.get('embedded') else 'false'
+            fh.write(f"theorem ob{n}_injective (a b : BitVec 32) (ha : a.ult 32 = true) (hb : b.ult 32 = true) (oa : Cls.ok {ob['cls']} {emb} a = true) (ob : Cls.ok {ob['cls']} {emb} b = true)\n"
                      f"    (h : Cls.code {ob['cls']} a = Cls.code {ob['cls']} b) : a = b := by\n  simp only [Cls.ok, Cls.code] at *\n  bv_decide (config := {{ timeout := 120 }})\n")
             thms.append(f"ob{n}_injective")
         fh.write("end DynasmVerif.RegDyn\n")
